@@ -131,7 +131,7 @@ func (ns *namedRouteSpec) register(router *rux.Router) {
 }
 
 func runC15(e *Env) {
-	e.Rule = "named routes without optional parts (static, 1..3 variables: default, \\d+, [a-z]+, \\d{2}, .+ as last; literal text between and around variables; also variable-first routes whose values spell the literal first segment of a sibling route; numeric values passed as int/int64/uint) registered through each naming API (AddNamed, NewNamedRoute+AddRoute, NamedRoute+AttachTo, GET+NamedTo), with re-registrations and re-namings under the same name; values drawn from hostile pools that satisfy the class (blanks, non-ASCII, %, %2F, ?, #, +, &, text that looks like another placeholder, $1, dots); extra non-variable arguments; three argument styles (M, key/value pairs, *BuildRequestURL with Params+Queries). Oracle (round trip): BuildURL -> String() -> url.ParseRequestURI -> Match and ServeHTTP must select the route most recently registered under the name with params == the supplied values, the query must contain exactly the extra arguments, GetRoute(name) must be that route. Each assignment is built 6 times (map iteration order is part of the input). Non-trivial: a value with a character that needs escaping or that looks like a placeholder, >= 2 variables, or a re-registered name; distinct by (route, assignment, style). Also: an older route of a re-registered name is renamed to a new name (the old name keeps its latest registration); regex classes containing a colon. The route handlers edit their Params map in place after recording it (with a route cache the same URL is requested up to six times)."
+	e.Rule = "named routes without optional parts (static, 1..3 variables: default, \\d+, [a-z]+, \\d{2}, .+ as last; literal text between and around variables; also variable-first routes whose values spell the literal first segment of a sibling route; numeric values passed as int/int64/uint) registered through each naming API (AddNamed, NewNamedRoute+AddRoute, NamedRoute+AttachTo, GET+NamedTo), with re-registrations and re-namings under the same name; values drawn from hostile pools that satisfy the class (blanks, non-ASCII, %, %2F, ?, #, +, &, text that looks like another placeholder, $1, dots); extra non-variable arguments; three argument styles (M, key/value pairs, *BuildRequestURL with Params+Queries). Oracle (round trip): BuildURL -> String() -> url.ParseRequestURI -> Match and ServeHTTP must select the route most recently registered under the name with params == the supplied values, the query must contain exactly the extra arguments, GetRoute(name) must be that route. Each assignment is built 6 times (map iteration order is part of the input). Non-trivial: a value with a character that needs escaping or that looks like a placeholder, >= 2 variables, or a re-registered name; distinct by (route, assignment, style). Also: an older route of a re-registered name is renamed to a new name (the old name keeps its latest registration); regex classes containing a colon. Every URL handed out is edited by the caller afterwards (query, path, fragment, host), which must not show in the next one built. The route handlers edit their Params map in place after recording it (with a route cache the same URL is requested up to six times)."
 	e.Assumptions = []string{
 		"values whose leading/trailing white space or trailing '/' would land at the very end of the path are excluded: path normalisation (C11) removes them by design",
 		"path variables are addressed as \"{name}\" keys, other keys are query arguments (documented calling convention)",
@@ -402,6 +402,11 @@ func c15Case(t *T) {
 					}
 					delete(extras, "zz")
 					_ = styleI
+					// the caller finishes the URL it was given (a tracking parameter, a fragment, another host): its own object
+					u.RawQuery = "edited-by-the-caller-of-an-earlier-BuildURL=1"
+					u.Path += "/edited-by-an-earlier-caller"
+					u.Fragment = "frag"
+					u.Host = "other.example"
 				}
 			}
 		}
